@@ -57,6 +57,22 @@ def _has_quantifier(t):
     return False
 
 
+def _has_regex(t):
+    seen = set()
+    todo = [t]
+    while todo:
+        x = todo.pop()
+        i = x.get_id()
+        if i in seen:
+            continue
+        seen.add(i)
+        if z3.is_app(x) and x.decl().kind() == z3.Z3_OP_SEQ_IN_RE:
+            return True
+        if not z3.is_quantifier(x):
+            todo.extend(x.children())
+    return False
+
+
 class PathState:
     def __init__(self, prefix, stats):
         self.prefix = list(prefix)
@@ -132,9 +148,12 @@ class PathState:
         # The feasibility solver only sees quantifier-free facts: satisfiability of quantified
         # (string) formulas is where solvers get lost; dropping facts there only over-approximates
         # the set of explored paths, the obligations are always proved from the full `pc`.
+        # ... nor regular-expression membership facts: with them in the context the solver has been seen to
+        # run far beyond its timeout on unrelated questions.
         for c in _conjuncts(t):
             if not _has_quantifier(c):
-                self.solver.add(c)
+                if not _has_regex(c):
+                    self.solver.add(c)
                 self.lenabs.add(c)
 
     def proof_step(self, cond):
@@ -166,7 +185,7 @@ class PathState:
         if timeout_ms is not None:
             self.solver.set('timeout', timeout_ms)
         try:
-            r = self.solver.check(*([x for x in self.scopes if not _has_quantifier(x)] + list(extra)))
+            r = self.solver.check(*([x for x in self.scopes if not _has_quantifier(x) and not _has_regex(x)] + list(extra)))
         finally:
             if timeout_ms is not None:
                 self.solver.set('timeout', FEAS_TIMEOUT_MS)
@@ -184,6 +203,10 @@ class PathState:
     def is_feasible(self, t):
         if self.lenabs.infeasible(t, self.scopes):
             return False
+        if _has_regex(t):
+            # (never asked to the solver inside a big context: it may not come back; explore both sides)
+            self.unknown_feasibility += 1
+            return True
         r = self.check(t)
         if r == z3.unknown:
             self.unknown_feasibility += 1
